@@ -39,13 +39,23 @@ class BaseGotranODECodePrinter(StrPrinter):
             "!=": "Ne",
         }
         relop = relop2str[expr.rel_op]
+        if relop == "Ne":
+            # The grammar has no 'not equal' operator
+            return f"Not(Eq({lhs}, {rhs}))"
         return f"{relop}({lhs}, {rhs})"
+
+    def _print_Exp1(self, expr):
+        # The grammar has no symbol for Euler's number
+        return "exp(1)"
 
     def _print_Or(self, expr):
         return f"Or({', '.join(self._print(a) for a in expr.args)})"
 
     def _print_And(self, expr):
         return f"And({', '.join(self._print(a) for a in expr.args)})"
+
+    def _print_Not(self, expr):
+        return f"Not({self._print(expr.args[0])})"
 
     def _print_BooleanFalse(self, expr):
         return "0"
